@@ -426,6 +426,49 @@ def mirror(ctx):
             for nm, v in zip(names, built['args'][:6]):
                 _par_check(res, ctx, gen, f'launch {name} {nm}', v,
                            -1 if nm in flips else 1, odd, sym, axis)
+    # vignetting lookup is even in (Hx, Hy)
+    f = P.func('FieldGroup.get_vig_factor')
+    res.saw(f)
+    symv = Sym()
+
+    def inl(call, ev):
+        return None
+    evv = Ev(sym=symv, choose=lambda t, e: True)
+    evv.env['Hx'], evv.env['Hy'] = A('Hx'), A('Hy')
+    hval = None
+    for s_ in ast.walk(f.node):
+        if isinstance(s_, ast.Call) and isinstance(s_.func, ast.Attribute) and \
+                s_.func.attr == 'interp' and s_.args:
+            # the abscissa the factors are looked up at
+            defs = {n_.targets[0].id: n_.value for n_ in ast.walk(f.node)
+                    if isinstance(n_, ast.Assign) and
+                    isinstance(n_.targets[0], ast.Name)}
+            a0 = s_.args[0]
+            if isinstance(a0, ast.Name) and a0.id in defs:
+                a0 = defs[a0.id]
+            try:
+                hval = evv.ev(a0)
+            except Inconclusive:
+                hval = None
+            break
+    if hval is None:
+        res.notes.append('get_vig_factor: lookup abscissa not evaluable')
+    else:
+        for axis, on in (('x', {'Hx'}), ('y', {'Hy'})):
+            opaque_odd = [a for a in hval.atoms() if a in symv.defs and
+                          symv.defs[a][0].startswith('call:') and any(
+                              isinstance(x, Rat) and (on & x.atoms())
+                              for x in symv.defs[a][1])]
+            if opaque_odd:
+                res.fail(ctx.finding(
+                    'MIRROR', f, f.node,
+                    f'the vignetting lookup abscissa passes H{axis} through '
+                    f'{opaque_odd[0].split("<")[0]}, which is not even in '
+                    f'H{axis}: mirrored fields get different pupil shrink '
+                    f'factors', construct=f'vignetting abscissa parity {axis}'))
+            else:
+                _par_check(res, ctx, f, 'vignetting abscissa', hval, 1,
+                           lambda a, on=on: a in on, symv, axis)
     # aperture test is even
     f = P.func('RadialAperture.clip')
     e2 = Ev()
@@ -558,4 +601,16 @@ def dummy_identity(ctx):
     return res
 
 
-RULES = [scale_homogeneous, scale_system, mirror, w_flow, dummy_identity]
+def scale_relies_on_thickness_edit(ctx):
+    # scale_system is implemented through set_thickness: the scaled lens is
+    # exact only if a thickness edit is a rigid shift that keeps surface 1 at
+    # z = 0 (the frame EPL / ray launch are expressed in)
+    from .C01 import thickness_edit
+    r = thickness_edit(ctx)
+    r.rule = 'SCALE-VIA-THICKNESS-EDIT'
+    for f in r.findings:
+        f.rule = 'SCALE-VIA-THICKNESS-EDIT'
+    return r
+
+
+RULES = [scale_homogeneous, scale_system, scale_relies_on_thickness_edit, mirror, w_flow, dummy_identity]
